@@ -28,11 +28,13 @@ pub fn ms_str(ms: u64) -> String {
 }
 
 /// The same number of seconds in another decimal spelling (a server need not print exactly three decimals):
-/// trailing zeros trimmed (`2.5`, `2`), two decimals, six decimals, a leading zero-less fraction is NOT used
+/// trailing zeros trimmed (`2.5`, `2`), two decimals, six / ten / eighteen decimals, a leading zero-less fraction is NOT used
 /// (not every float parser takes `.5`). `sel` picks the spelling; the value denoted is always exactly `ms` ms.
 pub fn ms_spell(ms: u64, sel: u64) -> String {
     let canon = ms_str(ms);
-    match sel % 5 {
+    match sel % 7 {
+        5 => format!("{}0000000", canon),
+        6 => format!("{}000000000000000", canon),
         0 => {
             let t = canon.trim_end_matches('0');
             t.trim_end_matches('.').to_string()
@@ -141,6 +143,9 @@ pub const VALUE_EDGES: &[&str] = &[
     "1e19", "1e20", "1e308", "1e309", "inf", "-inf", "infinity", "NaN", "nan", "1e-320", ".5", "5.", "+1", " 1", "1 ", "0x10", "1:2", ":", "1:", ":2", "1-", "-", "1--2", "-1-2", "1-2", "1.5-", "1.5-18446744073709551616",
     "18446744073709551616-", "=", "a=", "=b", "a=b=c", "play", "Play", "pause", "stop", "oneshot", "off", "Off", "track", "auto", "true", "é", "日本", "2020-06-12T17:53:00Z", "2020-06-12T17:53:00+02:00",
     "2020-06-12 17:53:00", "202\u{e9}06-12T17:53:00Z", "2020-06-12T1\u{e9}53:00Z", "2020-06-1\u{e9}T17:53:0Z", "\u{20ac}020-06-12T17:53:0Z", "2020-06-12T17:53:\u{e9}Z", "2020-13-45T99:99:99Z", "9999999999-01-01T00:00:00Z", "-2020-06-12T17:53:00Z", "0000-00-00T00:00:00Z", "123:456", "123:18446744073709551616", "340282366920938463463374607431768211456",
+    // decimals with 1-2 and with very many fraction digits, leading zeros, exponents
+    "2.5", "0.25", "1.0000000000", "3.00000000000000000025", "7.4294967295", "7.4294967296", "0.30000000000000004", "1.999999999999999999999", "0.0000000000000000000000001", "00000000000000000001.5", "1.5e0", "1.5E3", "1_000",
+    "1.0000000000-2.5", "0.5-2.25", "01", "001", "+0", "00", "1:2:3", "a:b:7", "31:", "31:240", "240",
     "179769313486231570000000000000000000000000000000000000000000000000000000000000000000000000000000000000000000000000000000000000000000000000000000000000000000000000000000000000000000000000000000000000000000000000000000000000000000000000000000000000000000000000000000000000000000000000000000000000000000000000000",
 ];
 
